@@ -25,6 +25,9 @@ fn emit(out: &mut impl Write, rep: &mut Report, id: String, impls: Vec<(String, 
 }
 
 /// `transcript <out.txt> <report.json> <seed> <maxlen>`
+#[cfg(feature = "nightly")]
+type DryocBoxHeap = dryoc::dryocbox::DryocBox<dryoc::protected::HeapByteArray<32>, dryoc::protected::HeapByteArray<16>, dryoc::protected::HeapBytes>;
+
 pub fn cmd_transcript(args: &[String]) {
     let seed: u64 = args[2].parse().unwrap();
     let maxlen: usize = args[3].parse().unwrap();
@@ -33,7 +36,7 @@ pub fn cmd_transcript(args: &[String]) {
     let mut rng = Rng::new(seed ^ 0xc18);
     let gk = rng.bytes(64);
     let k32: [u8; 32] = rng.arr();
-    for len in 0..=maxlen {
+    for len in (0..=maxlen).chain([4095usize, 4096, 4097, 8192, 8193, 65536, 65537].iter().copied()) {
         let msg = rng.bytes(len);
         for (ol, kl) in [(32usize, 0usize), (64, 64), (16, 16), (32, 32)] {
             let (mut im, _) = prims::generichash(&msg, &gk[..kl], ol);
@@ -60,7 +63,19 @@ pub fn cmd_transcript(args: &[String]) {
             let mut sig = [0u8; 64];
             csg::crypto_sign_detached(&mut sig, &msg, &sk).unwrap();
             let mut st = csg::crypto_sign_init(); csg::crypto_sign_update(&mut st, &msg); let mut sph = [0u8; 64]; csg::crypto_sign_final_create(st, &mut sph, &sk).unwrap();
-            emit(&mut out, &mut rep, format!("sign len={}", len), vec![("crypto_sign_detached".into(), Ok(sig.to_vec()))]);
+            let mut sim: Vec<(String, Result<Vec<u8>, String>)> = vec![("crypto_sign_detached".into(), Ok(sig.to_vec()))];
+            {
+                let kp: dryoc::sign::SigningKeyPair<dryoc::types::StackByteArray<32>, dryoc::types::StackByteArray<64>> = dryoc::sign::SigningKeyPair::from_seed(&seedk);
+                sim.push(("SigningKeyPair<Stack>::sign_with_defaults".into(), kp.sign_with_defaults(msg.clone()).map(|s| { let (sg, _m) = s.into_parts(); sg.as_slice().to_vec() }).map_err(|e| format!("{:?}", e))));
+            }
+            #[cfg(feature = "nightly")]
+            {
+                use dryoc::protected::*;
+                let kp: dryoc::sign::protected::LockedSigningKeyPair = dryoc::sign::SigningKeyPair::from_seed(&seedk);
+                sim.push(("LockedSigningKeyPair::sign -> Locked signature, HeapBytes message".into(),
+                    kp.sign::<Locked<HeapByteArray<64>>, HeapBytes>(HeapBytes::from(&msg[..])).map(|s| { let (sg, _m) = s.into_parts(); sg.as_slice().to_vec() }).map_err(|e| format!("{:?}", e))));
+            }
+            emit(&mut out, &mut rep, format!("sign len={}", len), sim);
             emit(&mut out, &mut rep, format!("sign_ph len={}", len), vec![("crypto_sign_final_create".into(), Ok(sph.to_vec()))]);
         }
     }
@@ -108,7 +123,46 @@ pub fn cmd_transcript(args: &[String]) {
         let nonce: [u8; 24] = rng.arr();
         let mut bc = vec![0u8; m.len() + 16];
         cb::crypto_box_easy(&mut bc, &m, &nonce, &spk, &bsk).unwrap();
-        emit(&mut out, &mut rep, format!("box i={}", i), vec![("crypto_box_easy".into(), Ok(bc))]);
+        let mut bim: Vec<(String, Result<Vec<u8>, String>)> = vec![("crypto_box_easy".into(), Ok(bc))];
+        {
+            use dryoc::types::StackByteArray as S;
+            let b: Result<dryoc::dryocbox::VecBox, _> = dryoc::dryocbox::DryocBox::encrypt_to_vecbox(&m, &S::from(&nonce), &S::from(&spk), &S::from(&bsk));
+            bim.push(("VecBox::encrypt_to_vecbox".into(), b.map(|b| b.to_vec()).map_err(|e| format!("{:?}", e))));
+        }
+        // the precomputed key of the same pair, whatever holds it
+        let mut pim: Vec<(String, Result<Vec<u8>, String>)> = vec![("crypto_box_beforenm".into(), Ok(cb::crypto_box_beforenm(&spk, &bsk).to_vec()))];
+        {
+            use dryoc::types::StackByteArray as S;
+            pim.push(("PrecalcSecretKey::precalculate (stack)".into(), Ok(dryoc::precalc::PrecalcSecretKey::precalculate(&S::from(&spk), &S::from(&bsk)).as_slice().to_vec())));
+            pim.push(("PrecalcSecretKey::precalculate ([u8;32])".into(), Ok(dryoc::precalc::PrecalcSecretKey::precalculate(&spk, &bsk).as_slice().to_vec())));
+        }
+        #[cfg(feature = "nightly")]
+        {
+            use dryoc::protected::*;
+            let lk = |x: &[u8; 32]| HeapByteArray::<32>::from_slice_into_locked(x).unwrap();
+            let ro = |x: &[u8; 32]| HeapByteArray::<32>::from_slice_into_readonly_locked(x).unwrap();
+            let hp = |x: &[u8]| HeapByteArray::<32>::try_from(x).unwrap();
+            pim.push(("PrecalcSecretKey::precalculate (heap)".into(), Ok(dryoc::precalc::PrecalcSecretKey::precalculate(&hp(&spk), &hp(&bsk)).as_slice().to_vec())));
+            pim.push(("PrecalcSecretKey::precalculate_locked".into(), dryoc::precalc::PrecalcSecretKey::precalculate_locked(&lk(&spk), &lk(&bsk)).map(|k| k.as_slice().to_vec()).map_err(|e| e.to_string())));
+            pim.push(("PrecalcSecretKey::precalculate_readonly_locked".into(), dryoc::precalc::PrecalcSecretKey::precalculate_readonly_locked(&lk(&spk), &lk(&bsk)).map(|k| k.as_slice().to_vec()).map_err(|e| e.to_string())));
+            let mut ppk = [0u8; 32]; dryoc::classic::crypto_core::crypto_scalarmult_base(&mut ppk, &bsk);
+            let lkp: dryoc::dryocbox::protected::LockedKeyPair = dryoc::keypair::KeyPair { public_key: lk(&ppk), secret_key: lk(&bsk) };
+            pim.push(("KeyPair<Locked>::precalculate_locked".into(), lkp.precalculate_locked(&lk(&spk)).map(|k| k.as_slice().to_vec()).map_err(|e| e.to_string())));
+            let rkp: dryoc::dryocbox::protected::LockedROKeyPair = dryoc::keypair::KeyPair { public_key: ro(&ppk), secret_key: ro(&bsk) };
+            pim.push(("KeyPair<LockedRO>::precalculate_readonly_locked".into(), rkp.precalculate_readonly_locked(&ro(&spk)).map(|k| k.as_slice().to_vec()).map_err(|e| e.to_string())));
+            // the box itself in heap and locked containers
+            let n24 = |x: &[u8; 24]| HeapByteArray::<24>::try_from(&x[..]).unwrap();
+            let hb: Result<DryocBoxHeap, _> = dryoc::dryocbox::DryocBox::encrypt(&m, &n24(&nonce), &hp(&spk), &hp(&bsk));
+            bim.push(("DryocBox<Heap,HeapBytes>::encrypt".into(), hb.map(|b| b.to_vec()).map_err(|e| format!("{:?}", e))));
+            let lb: Result<dryoc::dryocbox::protected::LockedBox, _> = dryoc::dryocbox::DryocBox::encrypt(&m, &HeapByteArray::<24>::from_slice_into_locked(&nonce).unwrap(), &lk(&spk), &lk(&bsk));
+            bim.push(("LockedBox::encrypt".into(), lb.map(|b| b.to_vec()).map_err(|e| format!("{:?}", e))));
+            if let Ok(pre) = dryoc::precalc::PrecalcSecretKey::precalculate_readonly_locked(&lk(&spk), &lk(&bsk)) {
+                let pb: Result<dryoc::dryocbox::VecBox, _> = dryoc::dryocbox::DryocBox::precalc_encrypt(&m, &dryoc::types::StackByteArray::from(&nonce), &pre);
+                bim.push(("precalculate_readonly_locked + precalc_encrypt".into(), pb.map(|b| b.to_vec()).map_err(|e| format!("{:?}", e))));
+            }
+        }
+        emit(&mut out, &mut rep, format!("precalc i={}", i), pim);
+        emit(&mut out, &mut rep, format!("box i={}", i), bim);
     }
     // byte containers behave alike: the same fill / resize / clone sequence leaves the same bytes in every container
     for i in 0..200u64 {
